@@ -237,6 +237,10 @@ func checkC14(c *Check) {
 			record(c14Event{"relproc", "relative-path", i, "blank-relative", p.name, Batch, shaW.sha, shaW.isErr, ""})
 		}
 	}
+	// 6. (thorough) the same corpus transpiled concurrently under the race detector
+	if c.Thorough() {
+		runC14Race(c, root)
+	}
 	// ---- offline checker over the event log ----
 	type key struct {
 		prog string
